@@ -1,27 +1,33 @@
 """Imported by Python's own start-up in jedi's helper process (the harness sets
 PYTHONPATH to this directory).  Only when VERIF_HELPER_AUDIT names a log file: install an
-audit hook that appends import/exec/compile/open events with the pid."""
+audit hook that appends import/exec/compile events (with pid and file) to it."""
 import os
 import sys
 
 _log = os.environ.get('VERIF_HELPER_AUDIT')
 if _log:
     _pid = os.getpid()
+    _f = open(_log, 'a', buffering=1)
+    _WANTED = frozenset(('import', 'exec', 'compile', 'os.chdir', 'os.putenv'))
 
     def _hook(event, args):
-        if event in ('import', 'exec', 'compile', 'open', 'os.chdir', 'os.putenv'):
-            try:
-                if event == 'import':
-                    what = '%s|%s' % (args[0], args[1])
-                elif event == 'exec':
-                    what = getattr(args[0], 'co_filename', '?')
-                elif event == 'compile':
-                    what = str(args[1])
-                else:
-                    what = str(args[0])
-                with open(_log, 'a') as f:
-                    f.write('%d\t%s\t%s\n' % (_pid, event, what))
-            except Exception:
-                pass
+        if event not in _WANTED:
+            return
+        try:
+            if event == 'import':
+                if not args[1]:
+                    return
+                what = '%s|%s' % (args[0], args[1])
+            elif event == 'exec':
+                what = getattr(args[0], 'co_filename', '?')
+                if what.startswith('<frozen'):
+                    return
+            elif event == 'compile':
+                what = str(args[1])
+            else:
+                what = str(args[0])
+            _f.write('%d\t%s\t%s\n' % (_pid, event, what))
+        except Exception:
+            pass
 
     sys.addaudithook(_hook)
